@@ -12,36 +12,36 @@ import (
 )
 
 type Config struct {
-	Repo          string            `json:"repo"`
-	Pkg           string            `json:"pkg"`
-	ModulePath    string            `json:"module"`
-	OverlayDirs   []string          `json:"overlay_dirs"` // harness dirs copied virtually into the package dir
-	Harnesses     []string          `json:"harnesses"`
-	Unwind        int               `json:"unwind"`
-	MaxDecisions  int               `json:"max_decisions"`
-	StepBudget    int64             `json:"step_budget"`
-	MaxPaths      int               `json:"max_paths"`
-	ConcLimit     int               `json:"conc_limit"`
-	MaxAlloc      int               `json:"max_alloc"`
-	SymIdxMax     int               `json:"sym_idx_max"`
-	Workers       int               `json:"workers"`
-	TimeoutMS     int               `json:"solver_timeout_ms"`
-	IntMode       bool              `json:"int_mode"`
-	SchedExplore  bool              `json:"sched_explore"`
-	PreemptSync   bool              `json:"preempt_sync"`
-	SelectExplore bool              `json:"select_explore"`
-	MaxPreempt    int               `json:"max_preemptions"`
-	Replace       map[string]string `json:"replace"`
-	Seed          int64             `json:"seed"`
-	Out           string            `json:"out"`
-	LibDir        string            `json:"lib_dir"`
-	SolverBin     string            `json:"solver"`
-	NoMerge       bool              `json:"no_merge"`
-	MakeLenSplit  int               `json:"make_len_split"`
-	SliceLenSplit int               `json:"slice_len_split"`
-	ExtraOverlays []ExtraOverlay    `json:"extra_overlays"`
-	OnlyFiles     []string          `json:"only_files"`
-	DumpSMT       string            `json:"dump_smt"`
+	Repo          string                  `json:"repo"`
+	Pkg           string                  `json:"pkg"`
+	ModulePath    string                  `json:"module"`
+	OverlayDirs   []string                `json:"overlay_dirs"` // harness dirs copied virtually into the package dir
+	Harnesses     []string                `json:"harnesses"`
+	Unwind        int                     `json:"unwind"`
+	MaxDecisions  int                     `json:"max_decisions"`
+	StepBudget    int64                   `json:"step_budget"`
+	MaxPaths      int                     `json:"max_paths"`
+	ConcLimit     int                     `json:"conc_limit"`
+	MaxAlloc      int                     `json:"max_alloc"`
+	SymIdxMax     int                     `json:"sym_idx_max"`
+	Workers       int                     `json:"workers"`
+	TimeoutMS     int                     `json:"solver_timeout_ms"`
+	IntMode       bool                    `json:"int_mode"`
+	SchedExplore  bool                    `json:"sched_explore"`
+	PreemptSync   bool                    `json:"preempt_sync"`
+	SelectExplore bool                    `json:"select_explore"`
+	MaxPreempt    int                     `json:"max_preemptions"`
+	Replace       map[string]string       `json:"replace"`
+	Seed          int64                   `json:"seed"`
+	Out           string                  `json:"out"`
+	LibDir        string                  `json:"lib_dir"`
+	SolverBin     string                  `json:"solver"`
+	NoMerge       bool                    `json:"no_merge"`
+	MakeLenSplit  int                     `json:"make_len_split"`
+	SliceLenSplit int                     `json:"slice_len_split"`
+	ExtraOverlays []ExtraOverlay          `json:"extra_overlays"`
+	OnlyFiles     []string                `json:"only_files"`
+	DumpSMT       string                  `json:"dump_smt"`
 	PerHarness    map[string]*HarnessOpts `json:"per_harness"`
 
 	allocHook func(in *Interp, instr ssa.Instruction, n int64)
@@ -63,27 +63,27 @@ type HarnessOpts struct {
 }
 
 type HarnessResult struct {
-	Harness     string         `json:"harness"`
-	Paths       int            `json:"paths"`
-	Completed   int            `json:"completed"`
-	Ends        map[string]int `json:"ends"`
-	EndMsgs     map[string]int `json:"end_msgs"`
-	Queries     int            `json:"queries"`
-	SolverMS    int64          `json:"solver_ms"`
-	Unknowns    int            `json:"unknowns"`
-	Fallbacks   int            `json:"fallbacks"`
-	Violations  []*Violation   `json:"violations"`
-	Reached     []string       `json:"reached"`
-	Asserts     int            `json:"asserts_checked"`
-	Funcs       []string       `json:"functions_encoded"`
-	WallMS      int64          `json:"wall_ms"`
-	Steps       int64          `json:"steps"`
-	MaxTrace    int            `json:"max_decisions_on_a_path"`
-	Inconclusive []string      `json:"inconclusive"`
-	SamplePaths []string       `json:"sample_paths"`
-	Truncated   bool           `json:"truncated"`
-	Cuts        int            `json:"cuts"`
-	LongestTrace string        `json:"longest_trace_kinds"`
+	Harness      string         `json:"harness"`
+	Paths        int            `json:"paths"`
+	Completed    int            `json:"completed"`
+	Ends         map[string]int `json:"ends"`
+	EndMsgs      map[string]int `json:"end_msgs"`
+	Queries      int            `json:"queries"`
+	SolverMS     int64          `json:"solver_ms"`
+	Unknowns     int            `json:"unknowns"`
+	Fallbacks    int            `json:"fallbacks"`
+	Violations   []*Violation   `json:"violations"`
+	Reached      []string       `json:"reached"`
+	Asserts      int            `json:"asserts_checked"`
+	Funcs        []string       `json:"functions_encoded"`
+	WallMS       int64          `json:"wall_ms"`
+	Steps        int64          `json:"steps"`
+	MaxTrace     int            `json:"max_decisions_on_a_path"`
+	Inconclusive []string       `json:"inconclusive"`
+	SamplePaths  []string       `json:"sample_paths"`
+	Truncated    bool           `json:"truncated"`
+	Cuts         int            `json:"cuts"`
+	LongestTrace string         `json:"longest_trace_kinds"`
 }
 
 type workItem struct{ prefix []Dec }
